@@ -159,7 +159,7 @@ fn run(construct: &str, depth: usize, op: &str) -> i32 {
             }
             let rs = b.with_rule(mk("deep".into(), e)).expect("with_rule").build();
             drop(rs);
-            std::thread::sleep(std::time::Duration::from_millis(150));
+            std::thread::sleep(std::time::Duration::from_millis(40));
         }
         "evaluate-in-ruleset" => {
             // the tree as one rule of a ruleset assembled through both builder entry points, evaluated with the others
